@@ -562,10 +562,18 @@ func specMeterEntry(e int, k int) *p4.MeterEntry {
 //@   ensures C16.meteridx.refuse: err != nil <==> sliceID >= 16 || TC >= 4
 //@   ensures C16.meteridx.value: err == nil ==> r == int64(sliceID)*4+int64(TC) && 0 <= r && r < 64
 
+// tryConnect is assumed (trusted): it returns at once when the channel is up; otherwise it dials the
+// P4Runtime server and may clear and re-initialise the datapath state (clearDatapathState, under
+// contract below). The ghost counter "reconnects" moves exactly when it did more than look.
+// C15.assume.reconnect (the bookkeeping invariant survives) is an ASSUMPTION that is known not to
+// hold on the path that clears the datapath state: that path is the KNOWN FINDING recorded for
+// clearDatapathState/post/C15.clear.inv; everything proved about SendMsgToUPF is relative to it.
 //@ func (up4 *UP4) tryConnect() (err error)
 //@   trusted
-//@   modifies UP4.p4client, UP4.p4RtTranslator, UP4.connected, UP4.counters, UP4.appMeterCellIDsPool, UP4.sessMeterCellIDsPool, UP4.endMarkerChan
+//@   modifies UP4.p4client, UP4.p4RtTranslator, UP4.connected, UP4.counters, elem counter, UP4.appMeterCellIDsPool, UP4.sessMeterCellIDsPool, UP4.endMarkerChan, ghostset.set, ghost.reconnects
 //@   ensures err == nil ==> up4.p4client != nil && up4.p4RtTranslator != nil
+//@   ensures C15.assume.reconnect: old[bool](specUP4Inv(up4, specAppCells(), specSessCells(), specCounterCells())) ==> specUP4Inv(up4, specAppCells(), specSessCells(), specCounterCells())
+//@   ensures C15.assume.connected: gint("reconnects") >= old[int](gint("reconnects")) && (gint("reconnects") == old[int](gint("reconnects")) ==> up4.p4client == old[*P4rtClient](up4.p4client) && up4.p4RtTranslator == old[*P4rtTranslator](up4.p4RtTranslator) && sameArray(up4.counters, old[[]counter](up4.counters)) && len(up4.counters) == old[int](len(up4.counters)) && (len(up4.counters) == 2 ==> up4.counters[preQosCounterID] == old[counter](up4.counters[preQosCounterID])) && up4.appMeterCellIDsPool == old[set.Set](up4.appMeterCellIDsPool) && up4.sessMeterCellIDsPool == old[set.Set](up4.sessMeterCellIDsPool) && gsOthersSame("set", 0, 0))
 
 //@ func (up4 *UP4) AddSliceInfo(sliceInfo *SliceInfo) (err error)
 //@   requires up4 != nil && sliceInfo != nil
@@ -1397,7 +1405,12 @@ func specCellPoolBelow(s set.Set, i int) bool {
 
 //@ func (up4 *UP4) initMetersPools()
 //@   requires up4 != nil && up4.p4RtTranslator != nil
-//@   ensures C16.pools.init: specMeterPools(up4, specAppCells(), specSessCells())
+//@   freshwrites E:uint32
+//@   ensures C16.pools.init: specMeterPools(up4, specAppCells(), specSessCells()) && !allocated(up4.appMeterCellIDsPool) && !allocated(up4.sessMeterCellIDsPool)
+//@   ensures C15.pools.frame: gsOthersSame("set", 0, 0)
+//@   loop 1 invariant C15.pools.l1.frame: gsOthersSame("set", 0, 0) && (rangeidx >= 0 ==> !allocated(up4.appMeterCellIDsPool)) && (rangeidx >= 1 ==> !allocated(up4.sessMeterCellIDsPool))
+//@   loop 2 invariant C15.pools.l2.frame: gsOthersSame("set", 0, 0) && !allocated(up4.appMeterCellIDsPool)
+//@   loop 3 invariant C15.pools.l3.frame: gsOthersSame("set", 0, 0) && !allocated(up4.appMeterCellIDsPool) && !allocated(up4.sessMeterCellIDsPool)
 //@   loop 1 invariant C16.pools.l1.app: rangeidx >= 0 ==> specCellPool(up4.appMeterCellIDsPool, specAppCells())
 //@   loop 1 invariant C16.pools.l1.sess: rangeidx >= 1 ==> specCellPool(up4.sessMeterCellIDsPool, specSessCells()) && dynRef(up4.appMeterCellIDsPool) != dynRef(up4.sessMeterCellIDsPool)
 //@   loop 1 invariant C16.pools.l1.list: len(meters) == 2 && meters[0] == p4constants.MeterPreQosPipeAppMeter && meters[1] == p4constants.MeterPreQosPipeSessionMeter
@@ -1443,6 +1456,7 @@ func specCounterPool(s set.Set, size uint64) bool {
 
 //@ func (up4 *UP4) initAllCounters()
 //@   requires up4 != nil && up4.p4RtTranslator != nil && len(up4.counters) == 2
+//@   freshwrites E:uint32
 //@   ensures C16.counters.init: len(up4.counters) == 2 && specCounterPool(up4.counters[preQosCounterID].counterIDsPool, uint64(specCounterCells()))
 //@   ensures C15.counters.init.fresh: !allocated(up4.counters[preQosCounterID].counterIDsPool)
 //@   ensures C15.counters.init.frame: gsOthersSame("set", 0, 0)
@@ -1907,3 +1921,57 @@ func specCountersOwned(up4 *UP4, pdrs []pdr, ctrs int64) bool {
 //@   loop 3 invariant C15.delete.l3.released: forall i int, v uint64 :: lo(deleted.pdrs) <= i && i < hi(deleted.pdrs) && v == uint64(at(deleted.pdrs, i).ctrID) ==> setHas(specCounterPoolOf(up4), v)
 //@   loop 3 invariant C15.delete.l3.onlythose: forall v uint64 :: setHas(specCounterPoolOf(up4), v) && !old[bool](setHas(specCounterPoolOf(up4), v)) ==> exists i int :: lo(deleted.pdrs) <= i && i < hi(deleted.pdrs) && v == uint64(at(deleted.pdrs, i).ctrID)
 //@   loop 3 invariant C15.delete.l3.writes: forall k int :: old[int](glen("p4table")) <= k && k < old[int](glen("p4table"))+len(deleted.pdrs) ==> specWriteTolerated(gentry("p4table", k))
+
+// ---------------------------------------------------------------------------
+// C15 / C04: request entry point and (re)initialisation of the datapath state
+// ---------------------------------------------------------------------------
+
+// Ghost log "p4clear": one entry per ClearTables call (the table IDs slice).
+//@ func (c *P4rtClient) ClearTables(tableIDs []uint32) (err error)
+//@   trusted
+//@   appends p4clear
+//@   ensures gfield("p4clear.ptr", gentry("p4clear", glen("p4clear")-1)) == uint64(sliceRef(tableIDs)) && gfield("p4clear.off", gentry("p4clear", glen("p4clear")-1)) == uint64(lo(tableIDs)) && gfield("p4clear.n", gentry("p4clear", glen("p4clear")-1)) == uint64(len(tableIDs))
+
+func specClearedTable(e int, k int) uint32 {
+	return elemAt[uint32](int(gfield("p4clear.ptr", e)), int(gfield("p4clear.off", e))+k)
+}
+
+// specMaskOnes: number of leading ones of a canonical mask (0 if not canonical); net.IPMask.Size is
+// assumed to return it (/verif/contracts/ext/std.ctr).
+func specMaskOnes(m []byte) int { panic("ghost") }
+
+func specIfaceEnv(n *net.IPNet) bool {
+	return n != nil && len(n.IP) == 4 && len(n.Mask) == 4 && 1 <= specMaskOnes(n.Mask)
+}
+
+// clearDatapathState (C04: stale entries of a previous incarnation are cleared, the interfaces
+// table gets its two entries in one batch; C15/C16: the pools are refilled inside their arrays).
+// C15.clear.inv is the obligation behind a KNOWN FINDING: the cell pools are refilled although the
+// plug-in's own map of configured meters (and the sessions' counter cells) are kept.
+//@ func (up4 *UP4) clearDatapathState() (err error)
+//@   requires up4 != nil && up4.p4client != nil && up4.p4RtTranslator != nil && len(up4.counters) == 2 && up4.meters != nil
+//@   requires C16.clear.envelope: up4.conf.SliceID <= 15 && specIfaceEnv(up4.ueIPPool) && specIfaceEnv(up4.accessIP)
+//@   requires specMetersInv(up4, specAppCells(), specSessCells())
+//@   ensures C04.clear.tables: err == nil ==> glen("p4clear") == old[int](glen("p4clear"))+1 && gfield("p4clear.n", gentry("p4clear", old[int](glen("p4clear")))) == 7 && specClearedTable(gentry("p4clear", old[int](glen("p4clear"))), 0) == p4constants.TablePreQosPipeSessionsUplink && specClearedTable(gentry("p4clear", old[int](glen("p4clear"))), 1) == p4constants.TablePreQosPipeSessionsDownlink && specClearedTable(gentry("p4clear", old[int](glen("p4clear"))), 2) == p4constants.TablePreQosPipeTerminationsUplink && specClearedTable(gentry("p4clear", old[int](glen("p4clear"))), 3) == p4constants.TablePreQosPipeTerminationsDownlink && specClearedTable(gentry("p4clear", old[int](glen("p4clear"))), 4) == p4constants.TablePreQosPipeTunnelPeers && specClearedTable(gentry("p4clear", old[int](glen("p4clear"))), 5) == p4constants.TablePreQosPipeInterfaces && specClearedTable(gentry("p4clear", old[int](glen("p4clear"))), 6) == p4constants.TablePreQosPipeApplications
+//@   ensures C04.clear.interfaces: err == nil ==> glen("p4table") == old[int](glen("p4table"))+1 && gfield("p4table.method", gentry("p4table", old[int](glen("p4table")))) == uint64(p4.Update_INSERT) && gfield("p4table.n", gentry("p4table", old[int](glen("p4table")))) == 2 && gfield("p4table.ok", gentry("p4table", old[int](glen("p4table")))) == 1 && specTableEntry(gentry("p4table", old[int](glen("p4table"))), 0).TableId == p4constants.TablePreQosPipeInterfaces && specTableEntry(gentry("p4table", old[int](glen("p4table"))), 1).TableId == p4constants.TablePreQosPipeInterfaces
+//@   ensures C16.clear.pools: err == nil ==> specMeterPools(up4, specAppCells(), specSessCells()) && specCounterPool(specCounterPoolOf(up4), uint64(specCounterCells()))
+//@   ensures C15.clear.inv: err == nil ==> specMetersInv(up4, specAppCells(), specSessCells())
+
+//@ func (up4 *UP4) SendMsgToUPF(method upfMsgType, all PacketForwardingRules, updated PacketForwardingRules) (cause uint8)
+//@   requires specUP4Inv(up4, specAppCells(), specSessCells(), specCounterCells())
+//@   requires C16.send.envelope: specConfEnvelope(up4) && specPortsOrdered(all.pdrs) && specQFIsValid(all.qers) && (method == upfMsgTypeAdd ==> len(all.pdrs) == len(updated.pdrs)) && (method != upfMsgTypeAdd ==> specRulesEnvelope(all.pdrs, all.qers, specCounterCells()))
+//@   ensures C15.send.cause: cause == ie.CauseRequestAccepted || cause == ie.CauseRequestRejected
+//@   ensures C15.send.unknown: method != upfMsgTypeAdd && method != upfMsgTypeMod && method != upfMsgTypeDel ==> cause == ie.CauseRequestRejected
+//@   ensures C15.send.reject: cause == ie.CauseRequestAccepted && method != upfMsgTypeDel ==> specAllWritesOK(old[int](glen("p4table")), old[int](glen("p4meter")), old[int](glen("p4batch")))
+//@   ensures C15.send.reject.del: cause == ie.CauseRequestAccepted && method == upfMsgTypeDel ==> forall k int :: old[int](glen("p4table")) <= k && k < old[int](glen("p4table"))+len(all.pdrs) ==> specWriteTolerated(gentry("p4table", k))
+//@   ensures C15.send.inv: specUP4Inv(up4, specAppCells(), specSessCells(), specCounterCells())
+
+// ---------------------------------------------------------------------------
+// C11: lock discipline of the UP4 plug-in's shared bookkeeping
+// ---------------------------------------------------------------------------
+
+// Every read or write of these fields in a function under contract carries the obligation that the
+// lock is held (kind "guard"); a lock that is released and taken again inside one operation is
+// reported by the obligation "atomic/second critical section".
+//@ guarded UP4.tunnelPeerIDs, UP4.tunnelPeerIDsPool by UP4.tunnelPeerMu
+//@ guarded UP4.applicationIDs, UP4.applicationIDsPool by UP4.applicationMu
